@@ -543,6 +543,21 @@ def factory_configurations() -> list:
                     continue
                 xs_ = [[n_] for n_ in nums] if isinstance(a_, ListValidator) else nums
                 pairs.append((a_, b_, xs_))
+    # record validators over identical classes / with overrides naming no field: equal (the library says) - then alike
+    from typing import NamedTuple as _NT, TypedDict as _TD
+    from koda_validate import DataclassValidator, NamedTupleValidator, TypedDictValidator
+    import dataclasses as _dc
+    only_dicts = Coercer(lambda v: Just(v) if type(v) is dict else nothing, {dict})
+    TD1, TD2 = _TD("Settings", {"a": int, "b": str}), _TD("Settings", {"a": int, "b": str})
+    NTc = _NT("NTc", [("a", int), ("b", str)])
+    DCc = _dc.make_dataclass("DCc", [("a", int), ("b", str)])
+    rec_inputs = [5, "x", None, {"a": 1, "b": "s"}, {"a": "no", "b": "s"}, {"a": 1, "b": "s", "zz": "t"}, {"a": 1}, [("a", 1)]]
+    pairs += [(TypedDictValidator(TD1, coerce=only_dicts), TypedDictValidator(TD2, coerce=only_dicts), rec_inputs),
+              (TypedDictValidator(TD1, fail_on_unknown_keys=True), TypedDictValidator(TD2, fail_on_unknown_keys=True), rec_inputs)]
+    for V_, cls_ in ((NamedTupleValidator, NTc), (DataclassValidator, DCc), (TypedDictValidator, TD1)):
+        for strict_ in (False, True):
+            pairs.append((V_(cls_, overrides={"a": IntValidator()}, fail_on_unknown_keys=strict_),
+                          V_(cls_, overrides={"a": IntValidator(), "zz": StringValidator()}, fail_on_unknown_keys=strict_), rec_inputs))
     pairs += [(EqualsValidator(1), EqualsValidator(1.0), nums), (EqualsValidator(1), EqualsValidator(True), nums),
               (EqualsValidator(Decimal(5)), EqualsValidator(5), nums)]
     found: dict = {}
@@ -565,7 +580,8 @@ def factory_configurations() -> list:
                     r2 = e
                 v1 = getattr(r1, "val", r1) if getattr(r1, "is_valid", False) else None
                 v2 = getattr(r2, "val", r2) if getattr(r2, "is_valid", False) else None
-                if getattr(r1, "is_valid", None) != getattr(r2, "is_valid", None) or v1 != v2:
+                both_results = hasattr(r1, "is_valid") and hasattr(r2, "is_valid")
+                if getattr(r1, "is_valid", None) != getattr(r2, "is_valid", None) or v1 != v2 or (both_results and not results_equal(r1, r2)):
                     what = f"{a!r} == {b!r} (configuration objects from one factory / parameters that are == across types) yet on {x!r} ({mode}) they return {r1!r} and {r2!r}"
                     # one specific way of differing is a recorded finding: a float met a Decimal parameter (or the
                     # other way round) in arithmetic, which Python refuses
